@@ -7,6 +7,8 @@ import EaselModel.Sqio.Spec
 import EaselModel.Sqio.Sim
 import EaselModel.Sqio.Fold
 import EaselModel.Sqio.ReadInfo
+import EaselModel.Sqio.ParseFasta
+import EaselModel.Sqio.Totality
 /-! # C04 — all ways of reading a sequence file agree with each other and with the file
 
 Property theorems only (proofs are glue on `Sqio/Windows.lean`, `Sqio/Refine.lean`, `Sqio/Spec.lean`).
@@ -180,5 +182,143 @@ example : Sim.Sim (loadbuf { file := #[62, 97, 10, 65, 67, 10], B := 2 }).1 (loa
 /-- non-vacuity: windows of W = 5, C = 2 over a 12-residue sequence: 1..5, 4..10, 9..12 (as the real reader returns) -/
 example : fwdNext (fwdFirst 5) 2 5 5 = ⟨4, 10, 2, 7⟩ ∧ fwdNext ⟨4, 10, 2, 7⟩ 2 10 2 = ⟨9, 12, 2, 4⟩ := by decide
 example : revInit 12 5 = (8, 12) ∧ revNext 12 2 5 8 = (2, 9, 3, 5) ∧ revNext 12 2 5 3 = (2, 4, 1, 2) := by decide
+
+
+/-! ## Whole-reader refinement (round 3): `sqascii_Read` = the closed form `recL` / `parseFasta`, for every block size
+
+`ReadSpec.recL inmap N sq l` is what one `sqascii_Read` returns when the cursor stands on the list `l` of remaining bytes of a FASTA
+file of `N` bytes, written with `dropWhile` / `takeWhile` / `filter` only (`HeaderSpec.headerL`, `ReadSpec.bodyL`); it mentions neither
+a buffer nor the block size. `ParseFasta.parseFasta` iterates it over the file. -/
+
+open EaselModel.Sqio.Cursor EaselModel.Sqio.BodySpec EaselModel.Sqio.HeaderSpec EaselModel.Sqio.ReadSpec EaselModel.Sqio.ParseFasta in
+/-- **Layer (i)+(iv): the residue loop in closed form, for every `B ≥ 1`.** The `do { seebuf; [GrowTo; addbuf;] … } while (loadbuf == eslOK)`
+    loop shared by `sqascii_Read`, `ReadSequence` (`store = true`) and `ReadInfo` (`store = false`), run from a handle whose cursor stands
+    on the remaining file bytes `l`, consumes exactly `d = l.takeWhile isData`; ends with `eslEOF` when nothing follows, `eslEOD` on an
+    end-of-data byte, `eslEFORMAT` (with a message) on any other byte; appends exactly the residues of `d` (`filter isRes`, mapped) when
+    storing; sets `eoff` to the offset of the last consumed byte and `L += #residues`; never faults. -/
+theorem residue_loop_closed_form (store : Bool) (fuel : Nat) (a : Ascii) (sq : Sq) (h : Cur a) (hm : a.inmap.size = 128)
+    (hmap : store = true → MapOk a.inmap (mapOf a sq)) (hf : (DataScan.fileFrom a).length + 1 < fuel)
+    (d r : List UInt8) (hd : d = (DataScan.fileFrom a).takeWhile (isData a.inmap)) (hr : r = (DataScan.fileFrom a).dropWhile (isData a.inmap)) :
+    (r = [] → (scanLoop store fuel a sq).2.2.1 = .eof ∧
+       (scanLoop store fuel a sq).2.1 = { stored store a.inmap (mapOf a sq) sq d with eoff := Refine.pos a + (d.length : Int) - 1 } ∧
+       Cur (scanLoop store fuel a sq).1 ∧ DataScan.fileFrom (scanLoop store fuel a sq).1 = [] ∧
+       stat (scanLoop store fuel a sq).1 = stat a ∧ (scanLoop store fuel a sq).1.L = a.L + (nresOf a.inmap d : Int)) ∧
+    (∀ c t, r = c :: t → isEod a.inmap c = true → (scanLoop store fuel a sq).2.2.1 = .eod ∧
+       (scanLoop store fuel a sq).2.1 = { stored store a.inmap (mapOf a sq) sq d with eoff := Refine.pos a + (d.length : Int) - 1 } ∧
+       (∃ b, Refine.WF { (scanLoop store fuel a sq).1 with bpos := b }) ∧ Fold.Track.Ok (scanLoop store fuel a sq).1.trk ∧
+       stat (scanLoop store fuel a sq).1 = stat a ∧ (scanLoop store fuel a sq).1.L = a.L + (nresOf a.inmap d : Int) ∧
+       (scanLoop store fuel a sq).1.boff + ((scanLoop store fuel a sq).2.2.2 : Int) = Refine.pos a + (d.length : Int) ∧
+       (scanLoop store fuel a sq).2.2.2 < (scanLoop store fuel a sq).1.nc) ∧
+    (∀ c t, r = c :: t → isEod a.inmap c = false → (scanLoop store fuel a sq).2.2.1 = .eformat ∧
+       (scanLoop store fuel a sq).1.haveErr = true) :=
+  scanLoop_spec store fuel a sq h hm hmap hf d r hd hr
+
+open EaselModel.Sqio.Cursor EaselModel.Sqio.HeaderSpec in
+/-- **Layer (ii): `header_fasta` in closed form, for every `B ≥ 1`**: status, name, description, `roff` / `hoff` / `doff`, allocation growth
+    are those of `headerL` — a composition of `dropWhile` / `takeWhile` on the remaining file bytes, offsets being
+    `file size − bytes remaining` — and the cursor is left on the bytes `headerL` says. -/
+theorem header_fasta_closed_form (a : Ascii) (sq : Sq) (h : Cur a) (hl : Sim.Live a) (hn : 2 ≤ sq.nalloc) (hd : 2 ≤ sq.dalloc) :
+    (headerFasta a sq).2 = ((headerL a.file.size sq (DataScan.fileFrom a)).2.1, (headerL a.file.size sq (DataScan.fileFrom a)).1) ∧
+    ((headerL a.file.size sq (DataScan.fileFrom a)).1 = .ok → Cur (headerFasta a sq).1 ∧
+       DataScan.fileFrom (headerFasta a sq).1 = (headerL a.file.size sq (DataScan.fileFrom a)).2.2 ∧ stat (headerFasta a sq).1 = stat a) ∧
+    ((headerL a.file.size sq (DataScan.fileFrom a)).1 = .eformat → (headerFasta a sq).1.haveErr = true) ∧
+    ((headerL a.file.size sq (DataScan.fileFrom a)).1 = .eof → Cur (headerFasta a sq).1 ∧ DataScan.fileFrom (headerFasta a sq).1 = [] ∧
+       stat (headerFasta a sq).1 = stat a) :=
+  headerFasta_spec a sq h hl hn hd
+
+open EaselModel.Sqio.Cursor EaselModel.Sqio.ReadSpec in
+/-- **Layer (iii): one `sqascii_Read` = `recL` on the remaining file bytes, for every `B ≥ 1`**: same status; on `eslOK` the same `ESL_SQ`
+    (every field) and the cursor on the bytes that `recL` leaves; `eslEFORMAT` comes with a message. -/
+theorem read_one_record_closed_form (a : Ascii) (sq : Sq) (R : Ready a sq) :
+    (read a sq).2.2 = (recL a.inmap a.file.size sq (DataScan.fileFrom a)).1 ∧
+    ((recL a.inmap a.file.size sq (DataScan.fileFrom a)).1 = .ok →
+      (read a sq).2.1 = (recL a.inmap a.file.size sq (DataScan.fileFrom a)).2.1 ∧ Cur (read a sq).1 ∧
+      DataScan.fileFrom (read a sq).1 = (recL a.inmap a.file.size sq (DataScan.fileFrom a)).2.2 ∧ stat (read a sq).1 = stat a) ∧
+    ((recL a.inmap a.file.size sq (DataScan.fileFrom a)).1 = .eformat → (read a sq).1.haveErr = true) ∧
+    ((recL a.inmap a.file.size sq (DataScan.fileFrom a)).1 = .eof → Cur (read a sq).1 ∧ DataScan.fileFrom (read a sq).1 = [] ∧
+      stat (read a sq).1 = stat a) :=
+  read_spec a sq R
+
+open EaselModel.Sqio.ParseFasta in
+/-- the handle the theorems start from is the one `esl_sqfile_Open` / `OpenDigital` yields (the driver's `openModel`, which is run
+    against the real `esl_sqfile_Open*` on every case) -/
+theorem open_is_openFasta (bytes : Bytes) (B abc : Nat) (hne : 0 < bytes.size) (hB : 1 ≤ B) :
+    openModel bytes "fa" 1 abc B = some (openFasta bytes B abc, .ok) := openModel_fasta bytes B abc hne hB
+
+open EaselModel.Sqio.ParseFasta in
+/-- **Layer (iv), the whole-reader refinement: `Read` loop = `parseFasta` for EVERY byte string and EVERY block size `B ≥ 1`.**
+    Reading all records (`while (esl_sqio_Read(sqfp, sq) == eslOK) { …; esl_sq_Reuse(sq); }`) from open on returns exactly the records
+    — every `ESL_SQ` field: name, description, residues, `roff` / `hoff` / `doff` / `eoff`, `L`, coordinates, allocations — and the final
+    status (`eslEOF` / `eslEFORMAT`) of `parseFasta abc bytes`, a function of the bytes alone. Text mode (`abc = 0`) and DNA / RNA /
+    amino digital mode. -/
+theorem read_all_eq_parseFasta (bytes : Bytes) (B abc : Nat) (hB : 1 ≤ B) (habc : abc ∈ [0, 1, 2, 3]) :
+    readAllM (bytes.size + 2) (openFasta bytes B abc) (freshSq abc) = parseFasta abc bytes :=
+  ParseFasta.read_all_eq_parseFasta bytes B abc hB habc
+
+open EaselModel.Sqio.ParseFasta in
+/-- **Block-size independence of the whole reader** (was `read_block_size_independent_partial`): any two block sizes give the same
+    records and the same final status, for every byte string. -/
+theorem read_all_block_size_independent (bytes : Bytes) (B1 B2 abc : Nat) (h1 : 1 ≤ B1) (h2 : 1 ≤ B2) (habc : abc ∈ [0, 1, 2, 3]) :
+    readAllM (bytes.size + 2) (openFasta bytes B1 abc) (freshSq abc) = readAllM (bytes.size + 2) (openFasta bytes B2 abc) (freshSq abc) :=
+  ParseFasta.read_all_block_size_independent bytes B1 B2 abc h1 h2 habc
+
+open EaselModel.Sqio.Cursor EaselModel.Sqio.ReadSpec EaselModel.Sqio.InfoSeqSpec in
+/-- **`sqascii_ReadInfo` = `infoL` on the remaining file bytes, for every `B ≥ 1`** (the closed form of the info-only call) -/
+theorem readInfo_closed_form (a : Ascii) (sq : Sq) (R : Ready a sq) (hsa : 2 ≤ sq.salloc) :
+    (readInfo a sq).2.2 = (infoL a.inmap a.file.size sq (DataScan.fileFrom a)).1 ∧
+    ((infoL a.inmap a.file.size sq (DataScan.fileFrom a)).1 = .ok →
+      (readInfo a sq).2.1 = (infoL a.inmap a.file.size sq (DataScan.fileFrom a)).2.1 ∧ Cur (readInfo a sq).1 ∧
+      DataScan.fileFrom (readInfo a sq).1 = (infoL a.inmap a.file.size sq (DataScan.fileFrom a)).2.2 ∧ stat (readInfo a sq).1 = stat a) ∧
+    ((infoL a.inmap a.file.size sq (DataScan.fileFrom a)).1 = .eformat → (readInfo a sq).1.haveErr = true) ∧
+    ((infoL a.inmap a.file.size sq (DataScan.fileFrom a)).1 = .eof → Cur (readInfo a sq).1 ∧ DataScan.fileFrom (readInfo a sq).1 = [] ∧
+      stat (readInfo a sq).1 = stat a) :=
+  readInfo_spec a sq R hsa
+
+open EaselModel.Sqio.Cursor EaselModel.Sqio.ReadSpec EaselModel.Sqio.InfoSeqSpec in
+/-- **`sqascii_ReadSequence` = `seqL` on the remaining file bytes, for every `B ≥ 1`** (`skip_fasta` + the residue loop) -/
+theorem readSequence_closed_form (a : Ascii) (sq : Sq) (R : Ready a sq) :
+    (readSequence a sq).2.2 = (seqL a.inmap a.file.size sq (DataScan.fileFrom a)).1 ∧
+    ((seqL a.inmap a.file.size sq (DataScan.fileFrom a)).1 = .ok →
+      (readSequence a sq).2.1 = (seqL a.inmap a.file.size sq (DataScan.fileFrom a)).2.1 ∧ Cur (readSequence a sq).1 ∧
+      DataScan.fileFrom (readSequence a sq).1 = (seqL a.inmap a.file.size sq (DataScan.fileFrom a)).2.2 ∧ stat (readSequence a sq).1 = stat a) ∧
+    ((seqL a.inmap a.file.size sq (DataScan.fileFrom a)).1 = .eformat → (readSequence a sq).1.haveErr = true) ∧
+    ((seqL a.inmap a.file.size sq (DataScan.fileFrom a)).1 = .eof → Cur (readSequence a sq).1 ∧ DataScan.fileFrom (readSequence a sq).1 = [] ∧
+      stat (readSequence a sq).1 = stat a) :=
+  readSequence_spec a sq R
+
+open EaselModel.Sqio.ReadSpec in
+/-- **`Read`, `ReadInfo`, `ReadSequence` agree field by field, for every file, cursor position and block size** (was
+    `read_readinfo_agree_partial`): whenever the whole-record read succeeds from a ready handle, the info-only and the sequence-only read
+    succeed, all three stop on the same file byte, `ReadInfo` reports the same name, description, `roff` / `hoff` / `doff` / `eoff` and
+    `L` = the number of residues `Read` stored, and `ReadSequence` the same residues, `roff` / `doff` / `eoff`, `L` and coordinates. -/
+theorem read_readInfo_readSequence_agree (a : Ascii) (sq : Sq) (R : Ready a sq) (hs : sq.seq = #[]) (hsa : 2 ≤ sq.salloc)
+    (hok : (read a sq).2.2 = .ok) :
+    (readInfo a sq).2.2 = .ok ∧ (readSequence a sq).2.2 = .ok ∧
+    DataScan.fileFrom (readInfo a sq).1 = DataScan.fileFrom (read a sq).1 ∧
+    DataScan.fileFrom (readSequence a sq).1 = DataScan.fileFrom (read a sq).1 ∧
+    (readInfo a sq).2.1.name = (read a sq).2.1.name ∧ (readInfo a sq).2.1.desc = (read a sq).2.1.desc ∧
+    (readInfo a sq).2.1.roff = (read a sq).2.1.roff ∧ (readInfo a sq).2.1.hoff = (read a sq).2.1.hoff ∧
+    (readInfo a sq).2.1.doff = (read a sq).2.1.doff ∧ (readInfo a sq).2.1.eoff = (read a sq).2.1.eoff ∧
+    (readInfo a sq).2.1.L = (read a sq).2.1.L ∧ (readInfo a sq).2.1.L = ((read a sq).2.1.seq.size : Int) ∧
+    (readSequence a sq).2.1.seq = (read a sq).2.1.seq ∧ (readSequence a sq).2.1.roff = (read a sq).2.1.roff ∧
+    (readSequence a sq).2.1.doff = (read a sq).2.1.doff ∧ (readSequence a sq).2.1.eoff = (read a sq).2.1.eoff ∧
+    (readSequence a sq).2.1.L = (read a sq).2.1.L ∧ (readSequence a sq).2.1.start = (read a sq).2.1.start ∧
+    (readSequence a sq).2.1.end_ = (read a sq).2.1.end_ :=
+  Totality.three_calls_agree a sq R hs hsa hok
+
+open EaselModel.Sqio.ParseFasta EaselModel.Sqio.ReadSpec in
+/-- non-vacuity of `Ready`: the handle right after opening any file with any `B ≥ 1` in any of the four modes is ready -/
+example (bytes : Bytes) (B abc : Nat) (hB : 1 ≤ B) (habc : abc ∈ [0, 1, 2, 3]) : Ready (openFasta bytes B abc) (freshSq abc).reuse :=
+  (openFasta_ready bytes B abc hB habc).1
+
+open EaselModel.Sqio.ParseFasta in
+/-- non-vacuity / sanity of the closed form: `>a b c\nAC\nG T\n>x\n` (text mode) parses into two records — name `a`, description
+    `b c`, residues `ACGT`, `roff = 0`, `hoff = 6`, `doff = 7`, `eoff = 13`, `L = 4`; then name `x`, empty, `roff = 14`, `doff = 17`, `eoff = 16` -/
+example :
+    let r := parseFasta 0 #[62, 97, 32, 98, 32, 99, 10, 65, 67, 10, 71, 32, 84, 10, 62, 120, 10]
+    r.1.map (·.name) = [#[97], #[120]] ∧ r.1.map (·.desc) = [#[98, 32, 99], #[]] ∧ r.1.map (·.seq) = [#[65, 67, 71, 84], #[]] ∧
+    r.1.map (·.roff) = [0, 14] ∧ r.1.map (·.hoff) = [6, 16] ∧ r.1.map (·.doff) = [7, 17] ∧ r.1.map (·.eoff) = [13, 16] ∧
+    r.1.map (·.L) = [4, 0] ∧ r.2 = Status.eof := by
+  decide +kernel
 
 end EaselModel.Props.C04
